@@ -216,6 +216,39 @@ def run(ctx):
     if not ok:
         res.find(key, flt.loc(), "FrameSet::filter does not remove the used frames from the blocked set (retain(|f| !used.contains(f)))", "a blocking PULSE reports its own frame both as used and as blocked")
 
+    # R3b each side is evaluated whenever its condition is present: MatchedFrames.{used,blocked} =
+    #     <Option adaptor>(condition.<side>, .., closure) with the closure calling get_matching_keys_for_condition unconditionally
+    mf = [s_ for bb, s_ in aggregates(flt) if s_["rv"]["a"]["path"].endswith("MatchedFrames")]
+    OPTION_OK = {"map_or_else", "map", "unwrap_or_default", "unwrap_or_else", "unwrap_or", "map_or"}
+    OPTION_BAD = {"filter", "and_then", "take_if", "xor", "and", "zip", "or"}
+    if len(mf) != 1:
+        res.missing_anchor("the MatchedFrames construction in FrameSet::filter")
+    else:
+        for side, o in zip(mf[0]["rv"]["a"]["fields"], mf[0]["rv"]["ops"]):
+            key = "K7|side-evaluated-when-present|" + side
+            e = fn_expr_operand(flt, o)
+            chain = []
+            cur = e
+            while cur[0] == "call" and cur[2]:
+                chain.append(cur)
+                cur = cur[2][0]
+            root_ok = cur[0] == "field" and cur[2] == side and cur[1][0] == "param"
+            names = [c[1].rsplit("::", 1)[-1] for c in chain]
+            clos = [a for c in chain for a in c[2][1:] if a[0] == "closure"]
+            uncond = False
+            for cl in clos:
+                for h in db.by_path.get(cl[1], []):
+                    cs = [bb for bb, t, c in h.calls() if c and c.get("name") == "get_matching_keys_for_condition"]
+                    if cs and all(cs[0] in h.dominators().get(rb, set()) for rb in h.return_blocks()):
+                        uncond = True
+            if not root_ok or not chain:
+                res.site(key, False, {"verdict": "undecided: shape"})
+                res.undecided.append(key)
+                continue
+            ok = not (set(names) & OPTION_BAD) and set(names) <= OPTION_OK and uncond
+            res.site(key, True, {"adaptors": names, "evaluation_unconditional": uncond, "verdict": "ok" if ok else "VIOLATION"})
+            if not ok:
+                res.find(key, flt.loc(), "FrameSet::filter: the `%s` frames are not computed from condition.%s whenever it is present (adaptors %s, unconditional evaluation: %s)" % (side, side, names, uncond), "`RESET 0` with only a frame `0 1 \"cz\"` defined: nothing is used, and the frame must still be reported as blocked")
     # R4 regions
     def regions(sig):
         m_ = re.match(r"Binder \{ value: fn\((.*)\) -> (.*), bound_vars:", sig, re.S)
